@@ -50,7 +50,7 @@ fn i128_of(v: &ScVal) -> Option<i128> {
 }
 
 pub fn run(ctx: &Ctx, rep: &mut Report) {
-    let total = ctx.universes(120, 6000);
+    let total = ctx.universes(960, 48000);
     for uni in ctx.my_universes(total) {
         let mut rng = ctx.rng_for(uni);
         rep.begin_universe(uni);
